@@ -27,7 +27,7 @@ RULE = ("a case is (history, probe).  probe = one operation on one design: load 
         "non-trivial = history of >= 2 operations of which >= 1 is of the probe's family; distinct = distinct case.")
 ASSUMPTIONS = [
     "designs are lattice designs with unit >= 0.1: every accept/reject verdict and every abutment is clear of any tolerance that a 1000x change of the process-wide epsilon could move",
-    "digests are canonical: floats rounded to 12 significant digits, model sets instead of clause text (ROBDD node numbers legitimately depend on history), exception type for failed operations",
+    "digests are canonical: floats rounded to 12 significant digits; SAT encodings are digested as projected model set + clause count + a structural hash of the CNF in which decision-diagram node ids are replaced by hashes of the sub-diagrams they denote (node numbers legitimately depend on history, the emitted clauses do not); exception type for failed operations",
     "the parent process asserts before every fork that FRAME's process-wide state is pristine (epsilon undefined, ROBDD store empty)",
 ]
 _i = st.integers
@@ -130,10 +130,29 @@ def do_op(op, mutate=False):
                         models.append(list(bits))
                 s.delete()
             res = sm.solve()
+            # the generated CNF itself, up to the numbering of decision-diagram nodes: robdd_<id> is renamed to a hash of
+            # the sub-diagram it denotes (the store assigns ids in order of first construction, which legitimately
+            # depends on history; the diagram built for a constraint and the clauses emitted for it do not)
+            from tools.rect import pseudobool as pb
+            import hashlib
+            hmemo = {0: "F", 1: "T"}
+
+            def shash(i):
+                if i not in hmemo:
+                    v, a, b = pb.memory[i]
+                    hmemo[i] = hashlib.sha1(("%s|%s|%s" % (v, shash(a), shash(b))).encode()).hexdigest()[:12]
+                return hmemo[i]
+
+            def lname(l):
+                nm = l.v
+                if nm.startswith("robdd_"):
+                    nm = "R" + shash(int(nm[6:]))
+                return ("" if l.s else "~") + nm
+            structure = hashlib.sha1(json.dumps([sorted(lname(l) for l in cl) for cl in sm.clauses]).encode()).hexdigest()[:16]
             if mutate:
                 sm.clauses.append([])
                 sm.codified[999] = True
-            return ["ok", verdicts, models, bool(res)]
+            return ["ok", verdicts, models, bool(res), len(sm.clauses), structure]
         if kind == "legal":
             from props import c09
             c = op["fp"]
@@ -251,6 +270,8 @@ def run_case(c):
         cls.append("history-with-rejected-design")
     if any(h.get("scale", 1) >= 100 for h in hist):
         cls.append("history-100x-larger")
+    if any(h.get("note") == "same-inequalities-other-construction" for h in hist):
+        cls.append("history-with-other-robdd-construction")
     return dict(nt=len(hist) >= 2 and probe["kind"] in fam, cls=cls)
 
 
@@ -343,10 +364,19 @@ def case_s(draw):
                 h2 = draw(op_s(base))
             h = h2
         hist.append(h)
+    if probe["kind"] == "sat" and hist and draw(_i(0, 2)) == 0:
+        # another manager encodes the probe's inequalities with the OTHER decision-diagram construction first
+        twin = copy.deepcopy(probe)
+        for p in twin["script"]["posts"]:
+            if p[0] == "pb":
+                p[4] = not p[4]
+        twin["note"] = "same-inequalities-other-construction"
+        hist[draw(_i(0, len(hist) - 1))] = twin
     return dict(probe=probe, history=hist)
 
 
 def subchecks():
     return [Sub("histories", run_case, strategy=case_s(), n_quick=1600, n_thorough=40000, reset=False, shrink_quick=True,
                 required=tuple("probe-" + f for f in FAMILIES) + ("history-with-degenerate-netlist", "history-mutates-results",
-                                                                   "history-with-rejected-design", "history-100x-larger", "probe-rejected"))]
+                                                                   "history-with-rejected-design", "history-100x-larger", "probe-rejected",
+                                                                   "history-with-other-robdd-construction"))]
